@@ -860,6 +860,18 @@ def run_variant(pkg, case, variant, calls, inside=0, keep=None):
             out['decor'] = (type(e).__name__, short(str(e), 300))
             return out
         do(ns, calls[inside:])
+        if case.a:
+            # the enclosing function(s) run a second time: new local classes under the same names, a new closure; the
+            # calls of this second invocation (inside and after) are appended to the same trace
+            try:
+                ns2 = mod.get()
+            except Exception as e:   # noqa
+                if isinstance(e, (AssertionError, KeyError, AttributeError)) and 'beartype' not in traceback.format_exc():
+                    raise
+                out['trace'].append('second-invocation-raised:' + type(e).__name__)
+                out['msgs'].append(short(str(e), 200))
+                return out
+            do(ns2, calls[inside:])
     return out
 
 
@@ -882,7 +894,7 @@ def classify(pkg, case, variant, calls, inside, oe, ov):
     """Minimise a difference to (position, sub-hint, quoting) and build the mechanism part of its key."""
     bad_idx = [j for j, (x, y) in enumerate(zip(oe['trace'], ov['trace'])) if x != y] if not ov['decor'] else []
     only_imp = bool(bad_idx) and all(
-        any(has_kind(v, 'impostor') for v in calls[j]['args'] + [calls[j]['ret']]) for j in bad_idx)
+        any(has_kind(v, 'impostor') for v in calls[j % len(calls)]['args'] + [calls[j % len(calls)]['ret']]) for j in bad_idx)
     positions = case.positions()
     culprit = positions[0] if len(positions) == 1 else None
     if culprit is None:
@@ -923,7 +935,7 @@ def classify(pkg, case, variant, calls, inside, oe, ov):
                 break
     culprit_refs = refs_in(h)
     if only_imp:   # the object, not the hint shape, is what matters: name the impersonated reference only
-        vals = [v for j in bad_idx for v in calls[j]['args'] + [calls[j]['ret']]]
+        vals = [v for j in bad_idx for v in calls[j % len(calls)]['args'] + [calls[j % len(calls)]['ret']]]
         culprit_refs = {i for i in culprit_refs if any(has_kind(v, 'impostor', i) for v in vals)} or culprit_refs
     kinds = sorted({case.refmech(i) for i in culprit_refs})
     # (what is decorated - function / method / class - is in the witness: the key names the reference form only)
@@ -943,7 +955,7 @@ def classify(pkg, case, variant, calls, inside, oe, ov):
         sym = symptom(outcome(m_e), outcome(m_v))
         if not m_v['decor']:
             bad = [j for j, (x, y) in enumerate(zip(m_e['trace'], m_v['trace'])) if x != y]
-            only_imp = all(any(has_kind(v, 'impostor') for v in cur_calls[j]['args'] + [cur_calls[j]['ret']])
+            only_imp = all(any(has_kind(v, 'impostor') for v in cur_calls[j % len(cur_calls)]['args'] + [cur_calls[j % len(cur_calls)]['ret']])
                            for j in bad)
         mini = dict(source_E=m_e['src'], source_variant=m_v['src'], calls=[call_repr(c) for c in cur_calls],
                     trace_E=outcome(m_e), trace_variant=outcome(m_v),
@@ -1058,7 +1070,7 @@ def diff_case(rng, idx, stream, forced=None):
             else:
                 j = next(j for j, (x, y) in enumerate(zip(oe['trace'], ov['trace'])) if x != y)
                 key = f'variants-differ:{vlabel[variant]}-vs-evaluated:{mech}:{sym}'
-                what = (f'{case.placement()}: call {j} {call_repr(calls[j])}: evaluated variant -> {oe["trace"][j]}, '
+                what = (f'{case.placement()}: call {j} {call_repr(calls[j % len(calls)]) + (" (second invocation of the enclosing function)" if j >= len(calls) else "")}: evaluated variant -> {oe["trace"][j]}, '
                         f'{variant} variant -> {ov["trace"][j]} {ov["msgs"][j]}')
             count('findings_by_decorated_unit.' + case.unit())
             res['findings'].append((key, what))
